@@ -9,7 +9,7 @@ import DcVerif.Lemmas.CausalGraph
 run — by a simulation over every add-only history, and restates the observations on the *generated* `contains_node` /
 `contains_edge`. Built and audited by the check of C08 (owner of the `ugraphfns` translator). -/
 namespace C01Store
-open Model.UGraph
+open Model.UGraph Spec.DiGraph
 
 /-- the values stored in the ultragraph are opaque to it: any encoding of a node will do -/
 def toU (enc : CausalGraph.Node → Nat) : CausalGraph.Op → Spec.DiGraph.Op
@@ -204,6 +204,57 @@ theorem c01store_outgoing_mem (enc : CausalGraph.Node → Nat) (ops : List Causa
     exact ⟨(hw.adj e he).2, e, he, ha, rfl⟩
   · rintro ⟨_, e, he, ha, hv⟩
     exact ⟨e, ⟨he, ha⟩, hv⟩
+
+theorem row_cols_nodup (l : List Edge) (a : Nat) (h : (l.map (fun e => (e.1, e.2.1))).Nodup) :
+    ((l.filter (fun e => e.1 == a)).map (·.2.1)).Nodup := by
+  induction l with
+  | nil => simp
+  | cons e l ih =>
+    rw [List.map_cons, List.nodup_cons] at h
+    by_cases he : e.1 = a
+    · simp only [List.filter_cons, he, beq_self_eq_true, if_true, List.map_cons, List.nodup_cons]
+      refine ⟨?_, ih h.2⟩
+      intro hm
+      obtain ⟨e', he', hc⟩ := List.mem_map.1 hm
+      obtain ⟨hl, ha⟩ := List.mem_filter.1 he'
+      apply h.1
+      refine List.mem_map.2 ⟨e', hl, ?_⟩
+      have : e'.1 = a := by simpa using ha
+      simp [this, he, hc]
+    · have : (e.1 == a) = false := by simpa using he
+      simp only [List.filter_cons, this]
+      exact ih h.2
+
+/-- `outgoing_edges(a)`: the two models answer the same list — ascending, duplicate-free -/
+theorem c01store_outgoing (enc : CausalGraph.Node → Nat) (ops : List CausalGraph.Op) (a : Nat) :
+    (C08Gen.genRun init (ops.map (toU enc))).1.rowOf a = CausalGraph.out (CausalGraph.build ops) a := by
+  have hmem := c01store_outgoing_mem enc ops a
+  have hwf := C08Gen.c08gen_reachable_wf (ops.map (toU enc))
+  generalize (C08Gen.genRun init (ops.map (toU enc))).1 = u at hmem hwf
+  apply List.Perm.eq_of_pairwise (le := fun x y : Nat => x ≤ y)
+  · intro x y _ _ h1 h2; exact Nat.le_antisymm h1 h2
+  · have := isort_pairwise (le := fun a b : Nat => decide (a ≤ b)) (by intro a b c; simp; omega) (by intro a b; simp; omega)
+      ((u.adj.filter (fun e => e.1 == a)).map (·.2.1))
+    unfold rowOf sortNat
+    exact this.imp (by intro x y h; simpa using h)
+  · unfold CausalGraph.out
+    exact (List.pairwise_le_range).filter _
+  · apply (List.perm_ext_iff_of_nodup ?_ ?_).2
+    · intro v; exact hmem v
+    · exact nodup_sortNat _ (row_cols_nodup _ a hwf.edgesOk.nodup)
+    · unfold CausalGraph.out; exact (List.nodup_range).filter _
+
+open Gen.UGraphFns in
+/-- the generated `outgoing_edges` (as read from `graph_algorithms.rs`) on the graph the generated mutators reach: `Err` for an
+    absent node, otherwise exactly the successor list `CausalGraph.out` the traversal of C01 iterates over, in that order -/
+theorem c01store_gen_outgoing_edges (enc : CausalGraph.Node → Nat) (ops : List CausalGraph.Op) (a : Nat) :
+    outgoing_edges (C08Gen.genRun init (ops.map (toU enc))).1 a =
+      some (if CausalGraph.contains (CausalGraph.build ops) a then Res.ok (CausalGraph.out (CausalGraph.build ops) a) else Res.err) := by
+  have hwf := C08Gen.c08gen_reachable_wf (ops.map (toU enc))
+  rw [C08Gen.outgoing_edges_eq hwf, c01store_outgoing enc ops a]
+  have hc : (C08Gen.genRun init (ops.map (toU enc))).1.containsNode a = CausalGraph.contains (CausalGraph.build ops) a := by
+    rw [C08Gen.gen_run _ Model.UGraph.wf_init]; exact sim_contains (sim_build enc ops) a
+  rw [hc]
 
 /-- non-vacuity: root, two nodes, an accepted edge, a refused duplicate and a refused edge to an absent node -/
 example :
